@@ -76,34 +76,44 @@ def _is_presentation_stmt(st, marker_names: Set[str]) -> bool:
 
 
 def _marker_names(fn: Fn) -> Set[str]:
-    """Local names every read of which is in the test of an `if` controlling only presentation statements / debug
-    tests, or inside a raise / print argument."""
-    cands: Set[str] = set()
+    """Local names that only feed presentation: every read is the receiver of append / clear / extend, sits inside a
+    raise / print argument, is the test of an `if` controlling only presentation statements, or is copied into another
+    such name (`pending = unrecognized`, or the `x = x` an inlined `return x` leaves behind).  Greatest fixpoint."""
+    defs: Dict[str, List[ast.AST]] = {}
     for n in walk_fn(fn.node):
-        if isinstance(n, ast.Assign) and len(n.targets) == 1 and isinstance(n.targets[0], ast.Name) \
-                and isinstance(n.value, (ast.List, ast.Constant)):
-            cands.add(n.targets[0].id)
-    out = set()
-    for name in cands:
-        ok = True
-        for n in walk_fn(fn.node):
-            if isinstance(n, ast.Name) and n.id == name and isinstance(n.ctx, ast.Load):
-                p = parent(n)
-                # allowed: receiver of append/clear; inside a raise / print; in an If test
-                if isinstance(p, ast.Attribute) and p.attr in ("append", "clear", "extend"):
-                    continue
-                if any(isinstance(a, ast.Raise) or (isinstance(a, ast.Call) and text(a.func) == "print") for a in ancestors(n)):
-                    continue
-                iff = next((a for a in ancestors(n) if isinstance(a, ast.If) and _inside(n, a.test)), None)
-                if iff is None:
-                    ok = False
+        if isinstance(n, ast.Assign) and len(n.targets) == 1 and isinstance(n.targets[0], ast.Name):
+            defs.setdefault(n.targets[0].id, []).append(n.value)
+        elif isinstance(n, (ast.AugAssign, ast.AnnAssign, ast.For, ast.comprehension, ast.NamedExpr, ast.withitem)):
+            tg = getattr(n, "target", None) or getattr(n, "optional_vars", None)
+            for x in ast.walk(tg) if tg is not None else []:
+                if isinstance(x, ast.Name):
+                    defs.setdefault(x.id, []).append(None)
+    cands = {k for k, vs in defs.items() if k not in fn.params and all(
+        v is not None and (isinstance(v, (ast.List, ast.Tuple, ast.Constant, ast.Name)) or
+                           (isinstance(v, ast.Call) and text(v.func) in ("list", "tuple") and not v.args)) for v in vs)}
+    changed = True
+    while changed:
+        changed = False
+        for name in sorted(cands):
+            ok = all(isinstance(v, ast.Name) and v.id in cands or not isinstance(v, ast.Name) for v in defs[name])
+            for n in walk_fn(fn.node):
+                if not ok:
                     break
-                if not all(_presentation_block(s, {name}) for s in iff.body + iff.orelse):
-                    ok = False
-                    break
-        if ok:
-            out.add(name)
-    return out
+                if isinstance(n, ast.Name) and n.id == name and isinstance(n.ctx, ast.Load):
+                    p = parent(n)
+                    if isinstance(p, ast.Attribute) and p.attr in ("append", "clear", "extend"):
+                        continue
+                    if any(isinstance(a, ast.Raise) or (isinstance(a, ast.Call) and text(a.func) == "print") for a in ancestors(n)):
+                        continue
+                    if isinstance(p, ast.Assign) and p.value is n and all(isinstance(t, ast.Name) and t.id in cands for t in p.targets):
+                        continue
+                    iff = next((a for a in ancestors(n) if isinstance(a, ast.If) and _inside(n, a.test)), None)
+                    if iff is None or not all(_presentation_block(s_, cands) for s_ in iff.body + iff.orelse):
+                        ok = False
+            if not ok:
+                cands.discard(name)
+                changed = True
+    return cands
 
 
 def _presentation_block(st, markers) -> bool:
@@ -236,46 +246,143 @@ def enclosing_test_or_stmt(n):
     return n
 
 
+# ---------------------------------------------------------------------------------------------------------------
+# The rules below are decided on abstract runs of __main__ (sa/mainmodel.py): the analyser's interpreter executes main
+# in a stub world and records every File / Lexer / Context / registry.run call.  "Options change the presentation, never
+# the findings" becomes: for a fixed selection of files, toggling an option leaves that record unchanged, except for the
+# one value the option is allowed to set (debug level, added_value).
+
+TREE = {
+    "a.c": "int a; @E\n\t@N \n", "b.h": "#define X 1\n", "zz.c": "int\tx; @E  \r\nlast line without newline  @N",
+    "sub": {"c.c": "@N\n"},
+}
+BASE_ARGS = ["a.c", "b.h", "sub"]
+
+
+def _pipeline_record(o, keep_debug=True, keep_skip=True):
+    """What the analysis sees: per file (basename, text handed to the lexer, debug level, skip_define, Context ctor shape)."""
+    rec = []
+    lexed = {id(e[1]): e[2] for e in o.events("lexed")}
+    ctor = {id(e[1]): (e[2], e[3]) for e in o.events("Context")}
+    for e in o.events("run"):
+        f, ctx, snap = e[1], e[2], e[3]
+        toks = snap.get("tokens")
+        cargs, ckw = ctor.get(id(ctx), ([], {}))
+        added = repr(cargs[3]) if len(cargs) > 3 else repr(ckw.get("added_value"))
+        extra_args = (len(cargs), sorted(k for k in ckw if k not in ("file", "tokens", "debug", "added_value")))
+        rec.append((f.__dict__.get("basename"), f.__dict__.get("name"), f.__dict__.get("type"), lexed.get(id(f)),
+                    snap.get("debug") if keep_debug else None, snap.get("skip_define") if keep_skip else None,
+                    added if keep_skip else None, extra_args,
+                    len(toks) if isinstance(toks, list) else repr(toks)))
+    counts = (len(o.events("Lexer")), len(o.events("Context")), len(o.events("run")))
+    return rec, counts
+
+
+def _findings(o, fmt):
+    from ..mainmodel import parse_human, parse_json
+    import posixpath
+    if fmt == "json":
+        files, stray, _ = parse_json(o.stdout)
+    else:
+        files, stray = parse_human(o.stdout)
+    return [(posixpath.basename(n or ""), st, sorted(d)) for n, st, d in files]
+
+
+class _Runs:
+    def __init__(self, prog):
+        self.prog = prog
+        self.n = 0
+
+    def run(self, args, extra=(), tree=None):
+        from ..mainmodel import run_main
+        cli = ([("<positional>", list(args))] if args else []) + list(extra)
+        o = run_main(self.prog, tree or TREE, cli)
+        self.n += 1
+        if o.unsupported:
+            raise AnalysisError(f"__main__ is outside the evaluable subset: {o.unsupported} (command line {cli})")
+        return o
+
+
+def _sample_values(decl):
+    """Command-line occurrences to try for a declared option: list of lists of (flag, raw values)."""
+    flag = decl.flags[-1] if not decl.positional else "<positional>"
+    a = decl.action
+    if a in ("store_true", "store_false", "store_const", "==BooleanOptionalAction=="):
+        return [[(flag, [])]]
+    if a == "count":
+        return [[(flag, [])], [(flag, []), (flag, [])]]
+    if a in ("version", "help"):
+        return []
+    n = decl.nargs
+    words = ["CheckDefine", "zzz"]
+    if decl.choices is not None:
+        return [[(flag, [str(c)])] for c in list(decl.choices)]
+    if n in (None, "?"):
+        return [[(flag, [w])] for w in words]
+    if isinstance(n, int):
+        return [[(flag, [w] * n)] for w in words]
+    return [[(flag, [w])] for w in words] + [[(flag, words)]]
+
+
 def rule_R(run, prog):
-    run.rule("R-16.2", "TAINT -R: args.R reaches only Context's added_value, there only the membership test for "
-             "'CheckDefine' stored in preproc.skip_define; skip_define is read only by CheckPreprocessorDefine.run, after "
-             "the `define` test, as an early return in front of code that only emits that class's #define-value codes", floor=4)
+    run.rule("R-16.2", "-R on abstract runs and by interpretation of Context.__init__: the words given with -R reach only "
+             "Context's added_value; there they decide nothing but preproc.skip_define, which is true exactly when the word "
+             "CheckDefine was given (not for CheckDefines / xCheckDefine / Check); skip_define is read only by "
+             "CheckPreprocessorDefine.run, after the `define` test, as an early return in front of code that only emits that "
+             "class's #define-value codes", floor=4)
     main = prog.fn("__main__.py::main")
-    r_reads = [n for n in walk_fn(main.node) if isinstance(n, ast.Attribute) and text(n) == "args.R"]
-    ok = len(r_reads) == 1
-    if ok:
-        p = parent(r_reads[0])
-        ok = isinstance(p, ast.Call) and text(p.func) == "Context" and (
-            (len(p.args) >= 4 and p.args[3] is r_reads[0]) or any(k.arg == "added_value" and k.value is r_reads[0] for k in p.keywords))
-    run.ob("R-16.2", f"{main.key}::args.R", ok, "args.R is used for something other than Context(..., added_value)",
-           r_reads[0] if r_reads else main.node)
-    # the option is list-valued (nargs / append): Context tests `"CheckDefine" in added_value`, which is exact word
-    # membership on a list but a substring test on a plain string
-    defs = [n for n in walk_fn(main.node) if isinstance(n, ast.Call) and isinstance(n.func, ast.Attribute)
-            and n.func.attr == "add_argument" and n.args and isinstance(n.args[0], ast.Constant) and n.args[0].value == "-R"]
-    listy = False
-    if len(defs) == 1:
-        kw = {k.arg: k.value for k in defs[0].keywords}
-        na = kw.get("nargs")
-        act = kw.get("action")
-        listy = (isinstance(na, ast.Constant) and (na.value in ("+", "*") or (isinstance(na.value, int) and na.value >= 1))) or \
-                (isinstance(act, ast.Constant) and act.value in ("append", "extend"))
-    run.ob("R-16.2", f"{main.key}::R-is-a-word-list", len(defs) == 1 and listy,
-           "-R is not declared list-valued (nargs / action=append) while Context tests `'CheckDefine' in added_value`: on a plain "
-           "string that is a substring test, so an unknown word such as CheckDefines switches the #define checks off",
-           defs[0] if defs else main.node)
+    runs = _Runs(prog)
+    base = runs.run(BASE_ARGS)
+    b_rec = _pipeline_record(base, keep_skip=False)
+    bad = None
+    word = None
+    for words, want in ((["CheckDefine"], True), (["CheckDefines"], False), (["xCheckDefine"], False), (["Check"], False),
+                        (["checkdefine"], False), (["CheckForbiddenSourceHeader"], False)):
+        o = runs.run(BASE_ARGS, extra=[("-R", words)])
+        if o.crash is not None or o.status != base.status:
+            bad = bad or f"-R {words[0]}: the run ends differently ({o.crash or o.status})"
+            continue
+        if _pipeline_record(o, keep_skip=False) != b_rec or _findings(o, None) != _findings(base, None):
+            bad = bad or f"-R {words[0]} changes what the analysis is given besides added_value"
+        sk = [e[3].get("skip_define") for e in o.events("run")]
+        if any(bool(x) != want for x in sk) or not sk:
+            word = word or f"-R {words[0]} gives preproc.skip_define = {sk[:1]} (expected {want})"
+    if any(e[3].get("skip_define") for e in base.events("run")):
+        word = word or "without -R preproc.skip_define is set"
+    run.ob("R-16.2", f"{main.key}::args.R", bad is None, f"args.R is used for something other than Context(..., added_value): {bad}", main.node)
+    run.ob("R-16.2", f"{main.key}::R-is-a-word-list", word is None,
+           "-R is not handled as a list of words: `'CheckDefine' in added_value` on a plain string is a substring test, so an "
+           f"unknown word such as CheckDefines switches the #define checks off ({word})", main.node)
+    # Context.__init__ by interpretation
     ci = prog.fn("context.py::Context.__init__")
-    uses = [n for n in walk_fn(ci.node) if isinstance(n, ast.Name) and n.id == "added_value" and isinstance(n.ctx, ast.Load)]
-    ok = len(uses) == 1
-    if ok:
-        st = uses[0]
-        while not isinstance(st, ast.stmt):
-            st = parent(st)
-        ok = isinstance(st, ast.Assign) and text(st.targets[0]) == "self.preproc.skip_define" and \
-            isinstance(st.value, ast.Compare) and isinstance(st.value.ops[0], ast.In) and text(st.value.left) == "'CheckDefine'"
-    run.ob("R-16.2", f"{ci.key}::added_value", ok,
-           "added_value is used for more than the 'CheckDefine' membership test stored in preproc.skip_define",
-           uses[0] if uses else ci.node)
+    from .c04 import FormatterBench
+    from ..minieval import Unsupported
+    from ..xeval import Raised
+    bad = None
+    try:
+        snaps = []
+        for av in (None, [], ["CheckDefine"], ["x"], ["y", "CheckDefine"], ["CheckDefines"], ("CheckDefine",)):
+            b = FormatterBench(prog)
+            f = b.ev.construct("File", ["t.c", "int a;\n"], {})
+            try:
+                ctx = b.ev.construct("Context", [f, [], 1] + ([av] if av is not None else []), {})
+            except Raised as r:
+                bad = bad or f"Context(..., added_value={av!r}) raises {r.value!r}"
+                continue
+            pp = ctx.__dict__.get("preproc")
+            sk = pp.__dict__.get("skip_define") if pp is not None else None
+            want = "CheckDefine" in (av or [])
+            if bool(sk) != want:
+                bad = bad or f"added_value={av!r} gives skip_define={sk!r}"
+            rest = {k: (b.ev.py_repr(v) if k != "preproc" else sorted(k2 for k2 in v.__dict__ if k2 != "skip_define"))
+                    for k, v in ctx.__dict__.items() if not k.startswith("_")}
+            snaps.append(rest)
+        if any(x != snaps[0] for x in snaps):
+            bad = bad or "another attribute of the Context depends on added_value"
+    except Unsupported as e:
+        raise AnalysisError(f"Context.__init__ is outside the evaluable subset: {e}")
+    run.ob("R-16.2", f"{ci.key}::added_value", bad is None,
+           f"added_value is used for more than the 'CheckDefine' membership test stored in preproc.skip_define: {bad}", ci.node)
     readers = []
     for fn in prog.fns:
         for n in walk_fn(fn.node):
@@ -289,172 +396,351 @@ def rule_R(run, prog):
     if cd is not None and readers:
         g = cfg_of(cd)
         rd = [n for f, n in readers if f is cd][0]
-        iff = next((a for a in ancestors(rd) if isinstance(a, ast.If) and _inside(rd, a.test)), None)
-        early = iff is not None and len(iff.body) == 1 and isinstance(iff.body[0], ast.Return) and not iff.orelse
-        define_tests = [g.nid(n.test) for n in walk_fn(cd.node) if isinstance(n, ast.If) and "'define'" in text(n.test)]
-        dom = early and define_tests and any(t is not None and g.dominates(t, g.nid(iff.test), follow_exc=False) for t in define_tests)
-        # after the test: no stores to attributes (shared state), only emissions of the class's codes
+        tests = [nd for nd in g.nodes if nd.kind == "test" and any(x is rd for x in ast.walk(nd.ast))]
+        tnode = tests[0] if tests else None
+        # the outcome "skip" of the test leaves the function without emitting; it is reached only after the `define` test
+        define_tests = [nd.id for nd in g.nodes if nd.kind == "test" and "'define'" in text(nd.ast)]
+        dom = tnode is not None and bool(define_tests) and any(g.dominates(t, tnode.id, follow_exc=False) for t in define_tests)
+        emits = {_cfg_node_of_expr(g, e.node) for e in emission_sites(prog) if e.fn is cd}
         stores = []
-        if iff is not None:
-            after = False
-            for s in cd.node.body:
-                if s is iff:
-                    after = True
-                    continue
-                if after:
-                    for x in ast.walk(s):
-                        if isinstance(x, (ast.Assign, ast.AugAssign)):
-                            tg = x.targets if isinstance(x, ast.Assign) else [x.target]
-                            if any(isinstance(t, (ast.Attribute, ast.Subscript)) for t in tg):
-                                stores.append(x)
+        skip_ok = False
+        if tnode is not None:
+            pol = _skip_polarity(tnode.ast, rd)
+            lab = "T" if pol else "F"
+            first = [m for m, l in g.succ[tnode.id] if l == lab]
+            reach = set()
+            for m in first:
+                reach |= g.reachable(m, follow_exc=False)
+            skip_ok = pol is not None and not (reach & emits) and all(
+                g.nodes[x].kind != "stmt" or isinstance(g.nodes[x].ast, (ast.Return, ast.Pass, ast.Break, ast.Continue)) or
+                getattr(g.nodes[x].ast, "_sa_inline_exit", False) or _is_flag_assign(g.nodes[x].ast) for x in reach)
+            other = [m for m, l in g.succ[tnode.id] if l != lab and l != "exc"]
+            after = set()
+            for m in other:
+                after |= g.reachable(m, follow_exc=False)
+            for x in after:
+                a = g.nodes[x].ast
+                if g.nodes[x].kind == "stmt" and isinstance(a, (ast.Assign, ast.AugAssign)):
+                    tg = a.targets if isinstance(a, ast.Assign) else [a.target]
+                    if any(isinstance(t, (ast.Attribute, ast.Subscript)) for t in tg):
+                        stores.append(a)
         codes = set()
         for e in emission_sites(prog):
             if e.fn is cd and e.code_expr is not None:
                 codes |= value_set(prog, cd, e.code_expr) or {"?"}
-        ok = bool(dom) and not stores and codes <= {"MACRO_NAME_CAPITAL", "MACRO_FUNC_FORBIDDEN", "PREPROC_CONSTANT"}
+        ok = bool(dom) and skip_ok and not stores and codes <= {"MACRO_NAME_CAPITAL", "MACRO_FUNC_FORBIDDEN", "PREPROC_CONSTANT"}
         run.ob("R-16.2", f"{cd.key}::skip_define-effect", ok,
                "-R CheckDefine does more (or less) than suppressing the #define-value diagnostics: "
-               f"early return after the define test: {bool(dom)}, stores after it: {[text(s, 40) for s in stores[:2]]}, codes: {sorted(codes)}",
-               iff if iff is not None else cd.node)
+               f"reached only after the define test: {bool(dom)}, the skipping outcome leaves without emitting: {skip_ok}, "
+               f"stores after it: {[text(s_, 40) for s_ in stores[:2]]}, codes: {sorted(codes)}",
+               tnode.ast if tnode is not None else cd.node)
+
+
+def _is_flag_assign(a) -> bool:
+    return isinstance(a, ast.Assign) and all(isinstance(t, ast.Name) for t in a.targets) and isinstance(a.value, (ast.Constant, ast.Name, ast.Tuple))
+
+
+def _skip_polarity(test, read):
+    """True: the test is true when skip_define is set; False: false when set; None: not a plain (possibly negated) read."""
+    if test is read:
+        return True
+    if isinstance(test, ast.UnaryOp) and isinstance(test.op, ast.Not):
+        v = _skip_polarity(test.operand, read)
+        return None if v is None else not v
+    if isinstance(test, ast.Compare) and len(test.ops) == 1 and test.left is read and isinstance(test.comparators[0], ast.Constant):
+        c = test.comparators[0].value
+        if isinstance(test.ops[0], (ast.Is, ast.Eq)) and c in (True, False):
+            return bool(c)
+        if isinstance(test.ops[0], (ast.IsNot, ast.NotEq)) and c in (True, False):
+            return not bool(c)
+    return None
 
 
 def rule_presentation_options(run, prog):
-    run.rule("R-16.3", "presentation options: every args.<option> read in main is consumed in its allowed place (file "
-             "selection, formatter choice, use_colors, debug, -R); none reaches Lexer / Registry; use_colors only colours "
-             "the text field", floor=6)
+    run.rule("R-16.3", "presentation options, on abstract runs of __main__: for every option the parser declares, giving it "
+             "leaves the record of File / Lexer / Context / registry.run calls of a fixed selection unchanged (selection "
+             "options may change which files are selected, -d only the debug level handed to Context - the same for inline "
+             "content -, -R only added_value), and the verdicts and diagnostics shown are the same in both formats, with and "
+             "without colours; colours only add `ESC[<colour>m` ... `ESC[0m` around the text of diagnostics that have a colour", floor=6)
     main = prog.fn("__main__.py::main")
-    allowed = {
-        "file": "selection", "cfile": "selection", "hfile": "selection", "filename": "selection", "use_gitignore": "selection",
-        "debug": "debug", "R": "R", "format": "format", "no_colors": "colors", "only_filename": "unused", "version": "unused",
-    }
-    for n in walk_fn(main.node):
-        if isinstance(n, ast.Attribute) and isinstance(n.value, ast.Name) and n.value.id == "args" and isinstance(n.ctx, ast.Load):
-            opt = n.attr
-            key = f"{main.key}::option[{opt}]"
-            role = allowed.get(opt)
-            calls = [a for a in ancestors(n) if isinstance(a, ast.Call)]
-            into = [text(c.func) for c in calls]
-            if role is None or role == "unused":
-                # a new / so far unused option: fine as long as it stays out of the analysis pipeline
-                st = n
-                while not isinstance(st, ast.stmt):
-                    st = parent(st)
-                leaks = any(f in ("Lexer", "Context", "registry.run", "File", "Registry") for f in into)
-                # stored into a local that later reaches the pipeline?
-                if isinstance(st, ast.Assign) and len(st.targets) == 1 and isinstance(st.targets[0], ast.Name):
-                    nm = st.targets[0].id
-                    for x in walk_fn(main.node):
-                        if isinstance(x, ast.Name) and x.id == nm and isinstance(x.ctx, ast.Load) and any(
-                                isinstance(c, ast.Call) and text(c.func) in ("Lexer", "Context", "registry.run", "File", "Registry")
-                                for c in ancestors(x)):
-                            leaks = True
-                run.ob("R-16.3", key, not leaks, f"option args.{opt} reaches the analysis pipeline (Lexer / Context / registry / File)", n)
-            elif role == "format":
-                ok = not any(f in ("Lexer", "Context", "registry.run", "File") for f in into)
-                run.ob("R-16.3", key, ok, "args.format reaches the analysis pipeline", n)
-            elif role == "colors":
-                ok = any(isinstance(c, ast.Call) and text(c.func) == "format" and any(k.arg == "use_colors" and _inside(n, k.value) for k in c.keywords)
-                         for c in calls)
-                run.ob("R-16.3", key, ok, "args.no_colors is used for something other than the formatter's use_colors", n)
-            elif role == "debug":
-                st = n
-                while not isinstance(st, ast.stmt):
-                    st = parent(st)
-                ok = isinstance(st, ast.Assign) and text(st.targets[0]) == "debug"
-                run.ob("R-16.3", key, ok, "args.debug is used for something other than the debug level passed to Context", n)
-            elif role == "R":
-                run.ob("R-16.3", key, True, "see R-16.2", n)
-            elif role == "selection":
-                ok = not any(f in ("Lexer", "Context", "registry.run") for f in into)
-                run.ob("R-16.3", key, ok, f"args.{opt} reaches the analysis pipeline", n)
-            else:
-                run.ob("R-16.3", key, True, "not pipeline-relevant", n)
-    # the `debug` local goes to Context only
-    duses = [n for n in walk_fn(main.node) if isinstance(n, ast.Name) and n.id == "debug" and isinstance(n.ctx, ast.Load)]
-    ok = len(duses) >= 1 and all(isinstance(parent(u), ast.Call) and text(parent(u).func) == "Context" for u in duses)
-    run.ob("R-16.3", f"{main.key}::debug-local", ok, "main uses the debug level for something other than Context(...)",
-           duses[0] if duses else main.node)
-    # use_colors
-    uc = []
-    for fn in prog.fns:
-        for n in walk_fn(fn.node):
-            if (isinstance(n, ast.Attribute) and n.attr == "use_colors" and isinstance(n.ctx, ast.Load)) or \
-                    (isinstance(n, ast.Constant) and n.value == "use_colors"):
-                uc.append((fn, n))
-    ok = bool(uc) and all(f.cls is not None and f.cls.name == "HumanizedErrorsFormatter" and f.name in ("use_colors", "_colorize_error_text")
-                          or f.key == "__main__.py::main" for f, _ in uc)
-    run.ob("R-16.3", "errors.py::HumanizedErrorsFormatter::use_colors", ok,
-           "use_colors is consulted outside the colouring helper: " + ", ".join(f.key for f, _ in uc), None)
-    ce = prog.method("HumanizedErrorsFormatter", "_colorize_error_text")
-    hs = prog.method("HumanizedErrorsFormatter", "__str__")
-    calls = [n for n in walk_fn(hs.node) if isinstance(n, ast.Call) and text(n.func) == "self._colorize_error_text"]
-    ok = len(calls) == 1 and isinstance(parent(calls[0]), ast.Assign)
-    if ok:
-        var = parent(calls[0]).targets[0].id
-        us = [n for n in walk_fn(hs.node) if isinstance(n, ast.Name) and n.id == var and isinstance(n.ctx, ast.Load)]
-        ok = len(us) == 1 and isinstance(parent(us[0]), ast.FormattedValue)
-    rets = [n for n in walk_fn(ce.node) if isinstance(n, ast.Return)]
-    ok = ok and all("error.text" in text(r.value) for r in rets)
-    run.ob("R-16.3", f"{ce.key}::only-colours-text", ok,
-           "the colouring helper changes more than the escape codes around error.text", ce.node)
+    runs = _Runs(prog)
+    base = runs.run(BASE_ARGS)
+    run.require(base.crash is None and len(base.events("run")) >= 3, f"the base run of __main__ does not analyse its files ({base.crash})")
+    b_rec = _pipeline_record(base)
+    b_find = _findings(base, None)
+    selection = {"file", "cfile", "hfile", "filename", "use_gitignore"}
+    seen = set()
+    for d in base.decls:
+        if d.dest in seen:
+            continue
+        seen.add(d.dest)
+        key = f"{main.key}::option[{d.dest}]"
+        flagset = set(d.flags)
+        role = ("selection" if (d.positional or flagset & {"--cfile", "--hfile", "--filename", "--use-gitignore"}) else
+                "debug" if flagset & {"-d", "--debug"} else "R" if "-R" in flagset else
+                "format" if flagset & {"-f", "--format"} else "colors" if "--no-colors" in flagset else "other")
+        if d.action in ("version", "help"):
+            o = runs.run(BASE_ARGS, extra=[(d.flags[0], [])])
+            run.ob("R-16.3", key, o.crash is None and not o.events("Lexer"),
+                   f"option {d.flags[0]} starts an analysis", main.node)
+            continue
+        bad = None
+        # every option is tried on the plain command line and next to `-R CheckDefine -d` (an option may only do harm
+        # in combination with the values that do reach the analysis)
+        for ctx_opts in ([], [("-R", ["CheckDefine"]), ("-d", [])]):
+            if role in ("R", "debug") and ctx_opts:
+                continue
+            ref_run = base if not ctx_opts else runs.run(BASE_ARGS, extra=ctx_opts)
+            for occ in _sample_values(d):
+                if d.positional or role == "selection":
+                    continue
+                o = runs.run(BASE_ARGS, extra=ctx_opts + occ)
+                given = " ".join(f"{f} {' '.join(v)}".strip() for f, v in ctx_opts + occ)
+                if o.crash is not None:
+                    bad = bad or f"`{given}`: the run crashes ({o.crash})"
+                    continue
+                rec = _pipeline_record(o, keep_debug=(role != "debug"), keep_skip=(role != "R"))
+                ref = _pipeline_record(ref_run, keep_debug=(role != "debug"), keep_skip=(role != "R"))
+                if rec != ref:
+                    bad = bad or f"`{given}` changes what the analysis pipeline is given (Lexer / Context / registry / File)"
+                if role == "debug":
+                    lv = len(occ)
+                    got = [e[3].get("debug") for e in o.events("run")]
+                    if any(x != lv for x in got):
+                        bad = bad or f"`{given}`: Context gets the debug level {got[:1]} instead of {lv}"
+                if role in ("format", "colors", "debug", "R"):
+                    fmt = occ[0][1][0] if role == "format" else None
+                    if fmt in (None, "json", "humanized") and _findings(o, fmt) != b_find:
+                        bad = bad or f"`{given}` changes the verdicts / diagnostics shown"
+                    if o.status != base.status:
+                        bad = bad or f"`{given}` changes the exit status"
+        if role == "selection":
+            bad = _selection_option(runs, d, base)
+        run.ob("R-16.3", key, bad is None,
+               f"option {'/'.join(d.flags)} ({role}) reaches the analysis pipeline or changes the findings: {bad}", main.node)
+    # the debug level for inline content as well
+    bad = None
+    for extra in ([("--cfile", ["int a; @E\n"])], [("--hfile", ["@N\n"]), ("--filename", ["k.h"])]):
+        for lv in (0, 1, 2):
+            o = runs.run([], extra=extra + [("-d", [])] * lv)
+            got = [e[3].get("debug") for e in o.events("run")]
+            if o.crash is not None or got != [lv]:
+                bad = bad or f"{extra[0][0]} with {lv} x -d: Context debug levels {got} ({o.crash})"
+    for lv in (0, 1, 2):
+        o = runs.run(BASE_ARGS, extra=[("-d", [])] * lv)
+        got = [e[3].get("debug") for e in o.events("run")]
+        if o.crash is not None or any(x != lv for x in got) or len(got) != len(b_rec[0]):
+            bad = bad or f"{lv} x -d: Context debug levels {got}"
+    run.ob("R-16.3", f"{main.key}::debug-local", bad is None,
+           f"main uses the debug level for something other than Context(...): {bad}", main.node)
+    # colours
+    import re
+    from ..mainmodel import World
+    ansi = re.compile(r"\x1b\[[0-9;]*m")
+    tree = dict(TREE, **{"col.c": "@E @E @N @E @N\n"})
+    args = ["col.c", "a.c", "b.h"]
+    col = runs.run(args, tree=tree)
+    plain = runs.run(args, extra=[("--no-colors", [])], tree=tree)
+    jc = runs.run(args, extra=[("-f", ["json"])], tree=tree)
+    jp = runs.run(args, extra=[("-f", ["json"]), ("--no-colors", [])], tree=tree)
+    bad = None
+    if ansi.search(plain.stdout):
+        bad = "--no-colors output still contains escape sequences"
+    elif ansi.sub("", col.stdout) != plain.stdout:
+        bad = "the coloured report differs from the plain one by more than escape sequences"
+    elif jc.stdout != jp.stdout or ansi.search(jc.stdout):
+        bad = "the JSON report depends on --no-colors"
+    elif not ansi.search(col.stdout):
+        bad = "the default report has no colour at all (use_colors is not consulted)"
+    hf = prog.method("HumanizedErrorsFormatter", "__str__")
+    run.ob("R-16.3", "errors.py::HumanizedErrorsFormatter::use_colors", bad is None,
+           f"use_colors changes more than the colouring of the human report: {bad}", hf.node if hf else None)
+    # exact shape of the colouring
+    w = World(prog)
+    cm = prog.mod("colors.py")
+    bad = None
+    exp_lines = []
+    for ln in plain.stdout.split("\n"):
+        m = re.match(r"^(?P<head>(?:Error|Notice): (?P<code>\S+)\s+\(line:\s*-?\d+, col:\s*-?\d+\):\t)(?P<text>.*)$", ln)
+        if m:
+            try:
+                c = w.ev.call_value(w.ev.resolve_global("error_color", cm), [m.group("code")], {})
+            except Exception as e:          # noqa: BLE001
+                raise AnalysisError(f"colors.error_color is outside the evaluable subset: {e}")
+            exp_lines.append(m.group("head") + (f"\x1b[{c}m{m.group('text')}\x1b[0m" if c else m.group("text")))
+        else:
+            exp_lines.append(ln)
+    if "\n".join(exp_lines) != col.stdout and bad is None:
+        bad = "colours are not exactly ESC[<colour>m <text> ESC[0m around the text of the diagnostics that have a colour"
+    ce = prog.method("HumanizedErrorsFormatter", "_colorize_error_text") or hf
+    run.ob("R-16.3", f"errors.py::HumanizedErrorsFormatter._colorize_error_text::only-colours-text", bad is None,
+           f"the colouring helper changes more than the escape codes around error.text: {bad}", ce.node if ce else None, evaluations=runs.n)
+
+
+def _selection_option(runs, d, base):
+    """Selection options decide which files are analysed; what each analysed file's pipeline gets must not change."""
+    flag = d.flags[-1] if not d.positional else None
+    flagset = set(d.flags)
+    if d.positional:
+        o = runs.run(["a.c"])
+        o2 = runs.run(["sub", "a.c"])
+        ra = [r for r in _pipeline_record(o2)[0] if r[0] == "a.c"]
+        return None if o.crash is None and _pipeline_record(o)[0] == ra else "the pipeline of a file depends on the other arguments"
+    if "--use-gitignore" in flagset:
+        o = runs.run(BASE_ARGS, extra=[(flag, [])])
+        if o.crash is not None:
+            return f"the run crashes ({o.crash})"
+        return None if _pipeline_record(o) == _pipeline_record(base) else "with nothing ignored the pipeline record changes"
+    if flagset & {"--cfile", "--hfile"}:
+        text_ = TREE["zz.c"]
+        nm = "zz.c" if "--cfile" in flagset else "zz.h"
+        tree = dict(TREE, **{nm: text_})
+        o_file = runs.run([nm], tree=tree)
+        o_inl = runs.run([], extra=[(flag, [text_]), ("--filename", [nm])], tree=tree)
+        if o_inl.crash is not None:
+            return f"the inline run crashes ({o_inl.crash})"
+        if _pipeline_record(o_inl) != _pipeline_record(o_file):
+            return f"inline content is not handed to the pipeline like the same content in a file named {nm}"
+        if _findings(o_inl, None) != _findings(o_file, None) or o_inl.status != o_file.status:
+            return "inline content gets other verdicts / diagnostics than the same content in a file"
+        o_def = runs.run([], extra=[(flag, [text_])], tree=tree)
+        want = "file.c" if "--cfile" in flagset else "file.h"
+        if [r[0] for r in _pipeline_record(o_def)[0]] != [want]:
+            return f"inline content without --filename is not analysed as {want}"
+        return None
+    if "--filename" in flagset:
+        o = runs.run(BASE_ARGS, extra=[(flag, ["other.c"])])
+        return None if o.crash is None and _pipeline_record(o) == _pipeline_record(base) else "--filename alone changes the analysis of named files"
+    return None
 
 
 def rule_views(run, prog):
-    run.rule("R-16.4", "formatters are views: no formatter method stores to anything but self, adds diagnostics, or mutates "
-             "a File / Error / Highlight", floor=2)
-    for c in [prog.cls("_formatter")] + prog.subclasses("_formatter"):
-        bad = []
-        for m in c.methods.values():
-            for n in walk_fn(m.node):
-                if isinstance(n, (ast.Assign, ast.AugAssign)):
-                    tg = n.targets if isinstance(n, ast.Assign) else [n.target]
-                    for t in tg:
-                        if isinstance(t, (ast.Attribute, ast.Subscript)):
-                            base = t
-                            while isinstance(base, (ast.Attribute, ast.Subscript)):
-                                base = base.value
-                            if not (isinstance(base, ast.Name) and base.id in ("self", "cls")) and not (
-                                    isinstance(base, ast.Name) and any(isinstance(x, ast.Assign) and any(
-                                        isinstance(tt, ast.Name) and tt.id == base.id for tt in x.targets) for x in walk_fn(m.node))):
-                                bad.append(n)
-                if isinstance(n, ast.Call) and isinstance(n.func, ast.Attribute) and n.func.attr in (
-                        "add", "append", "add_highlight", "remove", "clear", "pop", "sort", "insert", "extend") and (
-                        "errors" in text(n.func.value) or "highlights" in text(n.func.value) or text(n.func.value) in ("error", "file", "self.files")):
-                    bad.append(n)
-        run.ob("R-16.4", f"{c.key}::view", not bad,
-               "a formatter modifies what it reports: " + "; ".join(text(b, 50) for b in bad[:3]), bad[0] if bad else c.node)
+    run.rule("R-16.4", "formatters are views, by interpretation: rendering a formatter (twice, with and without colours, also "
+             "on a file holding a diagnostic without highlight) leaves every File / Error / Highlight exactly as it was and "
+             "gives the same text both times", floor=2)
+    from .c04 import FormatterBench
+    from ..minieval import Unsupported
+    from ..xeval import Raised
+    for c in prog.subclasses("_formatter"):
+        bad = None
+        try:
+            for bare in (False, True):
+                b = FormatterBench(prog)
+                diags = [b.error("TOO_MANY_LINES", level="Error", positions=((3, 1), (3, 4))), b.error("SPC_INSTEAD_TAB", level="Notice", positions=((1, 2),))]
+                if bare:
+                    diags.append(b.error("INVALID_HEADER", positions=()))
+                files = [b.real_file("d/x.c", diags), b.real_file("y.h", [])]
+
+                def state():
+                    # iteration may sort the container: the diagnostics are compared as a multiset
+                    out = []
+                    for f in files:
+                        errs = f.__dict__.get("errors")
+                        inner = errs.__dict__.get("_inner") if isinstance(errs, type(f)) else None
+                        if not isinstance(inner, list):
+                            inner = list(b.ev.iterate(errs))
+                        out.append((b.ev.py_repr(f.__dict__.get("path")), sorted(b.ev.py_repr(e) for e in inner),
+                                    sorted(k for k in f.__dict__ if not k.startswith("_"))))
+                    return out
+
+                before = state()
+                outs = []
+                for colors in (True, False, True):
+                    try:
+                        outs.append(b.render(c.name, files, use_colors=colors))
+                    except Raised as r:
+                        outs.append(f"raises {type(r.value).__name__}")
+                    now = state()
+                    if now != before:
+                        bad = bad or ("rendering changes the reported objects" + (" (file with a diagnostic that has no highlight)" if bare else ""))
+                if outs[0] != outs[2]:
+                    bad = bad or "rendering twice gives two different texts"
+        except Unsupported as e:
+            raise AnalysisError(f"formatter {c.name} is outside the evaluable subset: {e}")
+        run.ob("R-16.4", f"{c.key}::view", bad is None, f"a formatter modifies what it reports: {bad}", c.node)
 
 
 def rule_pipeline(run, prog):
-    run.rule("R-16.5", "single pipeline for inline content: main has exactly one call each of Lexer(...), Context(...), "
-             "registry.run(...), all in the common per-file loop; both input branches only build File objects; File derives "
-             "basename / name / type from the path alone and File.source returns the given text unchanged", floor=4)
+    run.rule("R-16.5", "single pipeline, on abstract runs of __main__: every selected file - named, found in a directory or "
+             "given inline - goes through exactly one Lexer(...), one Context(...) built from that file and its tokens, and one "
+             "registry.run(...), in that order; File derives basename / name / type from the path alone and File.source hands "
+             "the given text, or the content of the file, to the lexer unchanged (tabs, trailing blanks, CR LF, no final newline)", floor=4)
     main = prog.fn("__main__.py::main")
-    loops = [n for n in main.node.body if isinstance(n, ast.For) and any(
-        isinstance(c, ast.Call) and text(c.func).endswith("registry.run") for c in ast.walk(n))]
-    run.require(len(loops) == 1, "anchor vanished: per-file loop of main")
-    for f in ("Lexer", "Context", "registry.run"):
-        calls = [n for n in walk_fn(main.node) if isinstance(n, ast.Call) and text(n.func) == f]
-        ok = len(calls) == 1 and _inside(calls[0], loops[0])
-        conditional = ok and any(isinstance(a, (ast.If, ast.IfExp)) for a in ancestors(calls[0]) if _inside(a, loops[0]) and a is not loops[0])
-        args_ok = ok and not any(isinstance(x, ast.Attribute) and text(x).startswith("args.") and x.attr in ("cfile", "hfile", "filename")
-                                 for x in ast.walk(calls[0])) and not any(isinstance(x, ast.IfExp) for x in ast.walk(calls[0]))
-        run.ob("R-16.5", f"{main.key}::single[{f}]", ok and not conditional and args_ok,
-               f"{f}(...) is not called exactly once, unconditionally, with the same arguments for inline and file content",
-               calls[0] if calls else main.node, calls=len(calls))
+    runs = _Runs(prog)
+    text_ = TREE["zz.c"]
+    scen = [("files", BASE_ARGS + ["zz.c"], []), ("inline-c", [], [("--cfile", [text_])]), ("inline-h", [], [("--hfile", [text_]), ("--filename", ["q.h"])]),
+            ("cwd", [], [])]
+    results = {}
+    for nm, args, extra in scen:
+        o = runs.run(args, extra=extra)
+        results[nm] = o
+    for f, kind in (("Lexer", "Lexer"), ("Context", "Context"), ("registry.run", "run")):
+        bad = None
+        for nm, o in results.items():
+            if o.crash is not None:
+                bad = bad or f"{nm}: the run crashes ({o.crash})"
+                continue
+            files = [e[1] for e in o.events("File")]
+            sel = [e[1] for e in o.events("run")]
+            seq = [(e[0], id(e[1]) if e[0] != "Context" else id(e[1].__dict__.get("file"))) for e in o.trace if e[0] in ("Lexer", "Context", "run")]
+            per = {}
+            for k, fid in seq:
+                per.setdefault(fid, []).append(k)
+            n_expected = {"files": 4, "inline-c": 1, "inline-h": 1, "cwd": 4}[nm]
+            if len(per) != n_expected:
+                bad = bad or f"{nm}: {len(per)} files go through the pipeline, expected {n_expected}"
+            for fid, ks in per.items():
+                if ks.count(kind) != 1:
+                    bad = bad or f"{nm}: {f}(...) is called {ks.count(kind)} times for one file"
+                elif ks != ["Lexer", "Context", "run"]:
+                    bad = bad or f"{nm}: the pipeline of a file is {ks}"
+            for e in o.events("Context"):
+                ctx = e[1]
+                toks = ctx.__dict__.get("tokens")
+                if not (isinstance(toks, list) and len(toks) == 1):
+                    bad = bad or f"{nm}: Context does not get the token list of the file's lexer"
+        run.ob("R-16.5", f"{main.key}::single[{f}]", bad is None,
+               f"{f}(...) is not called exactly once per file, unconditionally, with the same arguments for inline and file content: {bad}",
+               main.node, calls=sum(len(o.events(kind)) for o in results.values()))
+    from .c04 import FormatterBench
+    from ..minieval import Unsupported
+    from ..xeval import Raised
+    import posixpath
     fi = prog.method("File", "__init__")
     src = prog.method("File", "source")
-    stores = {text(t): text(n.value) for n in walk_fn(fi.node) if isinstance(n, ast.Assign) for t in n.targets}
-    ok = stores.get("self.path") == "path" and stores.get("self._source") == "source" and stores.get("self.basename") == "os.path.basename(path)" \
-        and stores.get("(self.name, self.type)") == "os.path.splitext(self.basename)"
-    run.ob("R-16.5", f"{fi.key}::derivation", ok, f"File.__init__ derives its fields otherwise: {stores}", fi.node)
-    rets = [n for n in walk_fn(src.node) if isinstance(n, ast.Return)]
-    reads = [n for n in walk_fn(src.node) if isinstance(n, ast.Call) and isinstance(n.func, ast.Attribute) and n.func.attr == "read"]
-    guard = [n for n in walk_fn(src.node) if isinstance(n, ast.If) and text(n.test) == "self._source is None"]
-    ok = len(rets) == 1 and text(rets[0].value) == "self._source" and len(reads) == 1 and len(guard) == 1 and _inside(reads[0], guard[0]) \
-        and not any(isinstance(x, ast.Call) and isinstance(x.func, ast.Attribute) and x.func.attr in ("strip", "replace", "expandtabs", "rstrip", "lstrip")
-                    for x in walk_fn(src.node))
-    run.ob("R-16.5", f"{src.key}::unchanged-text", ok, "File.source does not return the given text / the file content unchanged", src.node)
+    run.require(fi is not None and src is not None, "anchor vanished: File.__init__ / File.source")
+    bad = None
+    try:
+        for p in ("a.c", "d/e.h", "x.y.c", "noext", "/abs/sp ace.h", ".hidden"):
+            shapes = []
+            for source in (None, "int a;\n", ""):
+                b = FormatterBench(prog)
+                f = b.ev.construct("File", [p] + ([source] if source is not None else []), {})
+                shapes.append((b.ev.getattr(f, "path"), b.ev.getattr(f, "basename"), b.ev.getattr(f, "name"), b.ev.getattr(f, "type")))
+            bn = posixpath.basename(p)
+            want = (p, bn) + posixpath.splitext(bn)
+            if any(s_ != want for s_ in shapes):
+                bad = bad or f"File({p!r}[, source]) has (path, basename, name, type) = {shapes}, expected {want}"
+    except Raised as r:
+        bad = f"File(...) raises {r.value!r}"
+    except Unsupported as e:
+        raise AnalysisError(f"File.__init__ is outside the evaluable subset: {e}")
+    run.ob("R-16.5", f"{fi.key}::derivation", bad is None, f"File.__init__ derives its fields otherwise: {bad}", fi.node)
+    bad = None
+    texts = ["int\ta;\n", "x \t \n", "a\r\nb\r\n", "no newline at the end", "", "\tü\t\n\n\n", "  lead"]
+    for i, t in enumerate(texts):
+        tree = {"t.c": t}
+        o1 = runs.run(["t.c"], tree=tree)
+        o2 = runs.run([], extra=[("--cfile", [t])] if t else [("--hfile", ["x"]), ("--filename", ["k.h"])], tree=tree)
+        got1 = [e[2] for e in o1.events("lexed")]
+        if o1.crash is not None or got1 != [t]:
+            bad = bad or f"a file containing {t!r} reaches the lexer as {got1} ({o1.crash})"
+        if t:
+            got2 = [e[2] for e in o2.events("lexed")]
+            if o2.crash is not None or got2 != [t]:
+                bad = bad or f"inline content {t!r} reaches the lexer as {got2} ({o2.crash})"
+    run.ob("R-16.5", f"{src.key}::unchanged-text", bad is None,
+           f"File.source does not return the given text / the file content unchanged: {bad}", src.node)
 
 
 def check(run, prog):
